@@ -3469,7 +3469,10 @@ func FormatDuration(d time.Duration) string {
 	// Although we accept both "u" and "µ" when reading microsecond durations,
 	// we output with "u", which can be represented in 1 byte,
 	// instead of "µ", which requires 2 bytes.
-	return fmt.Sprintf("%du", d/time.Microsecond)
+	if d%time.Microsecond == 0 {
+		return fmt.Sprintf("%du", d/time.Microsecond)
+	}
+	return fmt.Sprintf("%dns", d)
 }
 
 // parseTokens consumes an expected sequence of tokens.
